@@ -3,6 +3,7 @@
 #include <boost/property_tree/ptree.hpp>
 #include <amgcl/backend/builtin.hpp>
 #include <amgcl/adapter/crs_tuple.hpp>
+#include <amgcl/value_type/static_matrix.hpp>
 #include <amgcl/mpi/util.hpp>
 #include <amgcl/mpi/make_solver.hpp>
 #include <amgcl/mpi/preconditioner.hpp>
@@ -281,8 +282,65 @@ static void prop_direct(Tape &t, Ctx &c) {
     });
 }
 
+// block-valued coarse systems: the rhs / solution exchanged with the master rank are b-vectors per unknown
+template <int BS>
+static void prop_direct_block(Tape &t, Ctx &c) {
+    typedef amgcl::static_matrix<double, BS, BS> V;
+    typedef amgcl::static_matrix<double, BS, 1> R;
+    typedef ab::builtin<V> BB;
+    typedef amgcl::mpi::distributed_matrix<BB> DMB;
+    const int k = size_ref(), me = rank_ref();
+    amgcl::mpi::communicator comm(MPI_COMM_WORLD);
+    Graph g = gen_graph(t, 30, 0, 9);
+    const ptrdiff_t n = g.n;
+    // block diagonally dominant: A_ij = -w_ij (I + 0.3 E_ij), A_ii = (sum_j w_ij * 1.6 + shift) I + 0.2 E_i
+    std::vector<std::map<ptrdiff_t, V>> rows(n);
+    std::vector<double> wsum(n, 0.0);
+    auto rnd = [&](double a) { V e; for (int q = 0; q < BS * BS; ++q) e(q) = t.uni(-a, a); return e; };
+    for (auto &e : g.edges) {
+        double w = t.logu(0.5, 5);
+        V b1 = rnd(0.3 * w), b2 = rnd(0.3 * w);
+        for (int q = 0; q < BS; ++q) { b1(q, q) -= w; b2(q, q) -= w; }
+        rows[e.first][e.second] = b1; rows[e.second][e.first] = b2;
+        wsum[e.first] += w; wsum[e.second] += w;
+    }
+    for (ptrdiff_t i = 0; i < n; ++i) { V d = rnd(0.2); double dd = 1.6 * BS * wsum[i] + t.logu(0.5, 2); for (int q = 0; q < BS; ++q) d(q, q) += dd; rows[i][i] = d; }
+    Csr<V> A; A.n = A.m = n; A.ptr.assign(n + 1, 0);
+    for (ptrdiff_t i = 0; i < n; ++i) { for (auto &kv : rows[i]) { A.col.push_back(kv.first); A.val.push_back(kv.second); } A.ptr[i + 1] = static_cast<ptrdiff_t>(A.col.size()); }
+    std::vector<ptrdiff_t> dom = gen_partition(t, n, k);
+    std::vector<R> f(n); for (auto &v : f) for (int q = 0; q < BS; ++q) v(q) = t.uni(-1, 1);
+    int active = 0; for (int r = 0; r < k; ++r) active += dom[r + 1] > dom[r];
+    c.desc << "mpi skyline_lu<block " << BS << "> ranks=" << k << " " << g.family << " n=" << n << " dom:"; for (auto d : dom) c.desc << d << ",";
+    c.nontrivial = active >= 2;
+    c.label("block-values"); c.label(active < k ? "has-empty-rank" : "all-ranks-active");
+    Csr<V> Al = strip(A, dom[me], dom[me + 1]);
+    auto tup = std::make_tuple(static_cast<size_t>(Al.n), Al.ptr, Al.col, Al.val);
+    DMB dA(comm, tup);
+    amgcl::mpi::direct::skyline_lu<V> S(comm, dA);
+    std::vector<R> fl(f.begin() + dom[me], f.begin() + dom[me + 1]), xl(Al.n);
+    for (auto &v : xl) for (int q = 0; q < BS; ++q) v(q) = 0;
+    S(fl, xl);
+    std::vector<double> flat(static_cast<size_t>(Al.n) * BS);
+    for (ptrdiff_t i = 0; i < Al.n; ++i) for (int q = 0; q < BS; ++q) flat[i * BS + q] = xl[i](q);
+    std::vector<double> X = allgatherv(flat, MPI_DOUBLE);
+    mpi_checked([&]() {
+        VF_REQUIRE(static_cast<ptrdiff_t>(X.size()) == n * BS, "assembled solution has " << X.size() << " entries");
+        Dense<long double> D(n * BS, n * BS);
+        for (ptrdiff_t i = 0; i < n; ++i) for (ptrdiff_t j = A.ptr[i]; j < A.ptr[i + 1]; ++j) for (int p = 0; p < BS; ++p) for (int q = 0; q < BS; ++q) D(i * BS + p, A.col[j] * BS + q) = A.val[j](p, q);
+        std::vector<long double> b(n * BS), ref;
+        for (ptrdiff_t i = 0; i < n; ++i) for (int q = 0; q < BS; ++q) b[i * BS + q] = f[i](q);
+        VF_REQUIRE(dense_solve(D, b, ref), "harness: reference solve failed");
+        long double nx = 0; for (auto v : ref) nx = std::max(nx, std::abs(v));
+        // strictly block diagonally dominant with margin: kappa_inf is O(10)
+        for (ptrdiff_t i = 0; i < n * BS; ++i)
+            VF_REQUIRE(std::abs(X[i] - ref[i]) <= 1e-11L * (nx + 1e-300L), "block direct coarse solve: component " << i << " = " << X[i] << " vs dense solution " << static_cast<double>(ref[i]));
+    });
+}
+
 static std::vector<Prop> props() {
     return {
+        Prop("direct_block2", prop_direct_block<2>, 40, 300, 100, 40, {1}, 1, 1),
+        Prop("direct_block3", prop_direct_block<3>, 30, 200, 100, 60, {1}, 1, 1),
         Prop("solve", prop_solve, 60, 500, 100, 40, {1}, 2, 4),
         Prop("aggregation", prop_aggregation, 60, 500, 100, 40, {1}, 1, 2),
         Prop("smoothed", prop_smoothed, 40, 300, 100, 40, {1}, 1, 2),
